@@ -519,6 +519,129 @@ def fam_misc(rng, thorough):
 
 
 # --------------------------------------------------------------------------------------------------
+# SRV answers that are partly malformed (resolver.c: the partly built record list must not be lost)
+# --------------------------------------------------------------------------------------------------
+def _dname(name):
+    out = b""
+    for lab in name.split("."):
+        if lab:
+            out += bytes([len(lab)]) + lab.encode()
+    return out + b"\0"
+
+
+def _srv_rr(owner, prio, weight, port, target, rdlen=None, typ=33):
+    """owner / target: bytes (already encoded names, pointers, or deliberately broken encodings)"""
+    rd = prio.to_bytes(2, "big") + weight.to_bytes(2, "big") + port.to_bytes(2, "big") + target
+    return owner + typ.to_bytes(2, "big") + b"\0\1" + b"\0\0\x0e\x10" + (len(rd) if rdlen is None else rdlen).to_bytes(2, "big") + rd
+
+
+def _dns(rrs, ancount=None, cut=None, qname=None):
+    q = (_dname("_xmpp-client._tcp.example.com") if qname is None else qname) + b"\0\x21\0\1"
+    msg = b"\x12\x34\x81\x80\0\1" + (len(rrs) if ancount is None else ancount).to_bytes(2, "big") + b"\0\0\0\0" + q + b"".join(rrs)
+    return msg if cut is None else msg[:cut]
+
+
+def srv_answers(thorough):
+    """(label, DNS answer): good answers and answers with a good record before / after / around a broken one"""
+    PTR = b"\xc0\x0c"                       # the question's name
+    T1, T2, T3 = _dname("xmpp1.example.org"), _dname("xmpp2.example.org"), _dname("xmpp3.example.org")
+    g1, g2, g3 = _srv_rr(PTR, 10, 5, 5222, T1), _srv_rr(PTR, 20, 5, 5223, T2), _srv_rr(PTR, 30, 0, 5224, T3)
+    A = [("good1", _dns([g1])), ("good3", _dns([g1, g2, g3]))]
+    broken_owner = {
+        "fwd-pointer": b"\xc0\xff", "self-pointer": None, "reserved-label": b"\x80\x01x\0", "label-past-end": b"\x3fabc",
+        "pointer-to-pointer-loop": None, "empty-pointer-tail": b"\xc0",
+    }
+    for name, own in broken_owner.items():
+        for ngood in ((1, 2) if thorough else (1,)):
+            pre = [g1, g2][:ngood]
+            off = len(_dns(pre))
+            if name == "self-pointer":
+                own_ = bytes([0xc0 | (off >> 8), off & 0xff])
+            elif name == "pointer-to-pointer-loop":
+                own_ = bytes([0xc0 | ((off + 2) >> 8), (off + 2) & 0xff, 0xc0 | (off >> 8), off & 0xff])
+            else:
+                own_ = own
+            bad = _srv_rr(own_, 5, 0, 5222, T3)
+            if name in ("label-past-end", "empty-pointer-tail"):
+                A.append(("good%d+%s" % (ngood, name), _dns(pre, ancount=ngood + 1) + own_))
+            else:
+                A.append(("good%d+%s" % (ngood, name), _dns(pre + [bad])))
+                A.append(("good%d+%s+good" % (ngood, name), _dns(pre + [bad, g3])))
+            if ngood == 1:
+                A.append((name + "+good", _dns([bad, g1]) if name not in ("label-past-end", "empty-pointer-tail") else _dns([], ancount=2) + own_))
+    # broken target names (after a good record)
+    off = len(_dns([g1]))
+    for name, tgt in (("target-fwd-pointer", b"\xc0\xff"), ("target-reserved", b"\x80x\0"), ("target-past-end", b"\x20ab"),
+                      ("target-self-pointer", bytes([0xc0 | ((off + 18) >> 8), (off + 18) & 0xff]))):
+        bad = _srv_rr(PTR, 5, 0, 5222, tgt)
+        A.append(("good1+" + name, _dns([g1, bad])))
+        A.append((name + "+good", _dns([bad, g1])))
+    # truncation inside the second / third record, rdlength that lies, more answers announced than present
+    full = _dns([g1, g2, g3])
+    l1, l2 = len(_dns([g1])), len(_dns([g1, g2]))
+    cuts = sorted(set([l1 + 1, l1 + 2, l1 + 4, l1 + 10, l1 + 12, l1 + 14, l1 + 18, l1 + 19, l2 - 1, l2 + 3, l2 + 12, len(full) - 1]
+                      + (list(range(l1, len(full))) if thorough else [])))
+    for c in cuts:
+        A.append(("good3-cut@%d" % c, full[:c]))
+    A.append(("ancount-too-large", _dns([g1, g2], ancount=5)))
+    A.append(("rdlen-short", _dns([g1, _srv_rr(PTR, 20, 5, 5223, T2, rdlen=3), g3])))
+    A.append(("rdlen-long", _dns([g1, _srv_rr(PTR, 20, 5, 5223, T2, rdlen=200)])))
+    A.append(("cname-between", _dns([g1, _srv_rr(PTR, 0, 0, 0, T2, typ=5), g3])))
+    A.append(("question-broken", _dns([g1], qname=b"\xc0\xff")))
+    return A
+
+
+def fam_srv(rng, thorough):
+    S = []
+    j, pw = "jid " + H(JIDS["full"]), "pass " + H("secret")
+    sess = feed(script(tls=False, sm=False)[:2], runs=1)
+    for label, msg in srv_answers(thorough):
+        srv = "srv " + msg.hex()
+        S.append(Sc(["conn", j, pw, srv, "connect client", "run", "run"] + sess + TEARDOWNS["close"] + ["release"], "srv:%s:session" % label))
+        S.append(Sc(["conn", j, pw, srv, "connect client", "release"], "srv:%s:release-at-once" % label))
+        if thorough or rng.random() < .25:
+            S.append(Sc(["conn", j, pw, srv, "ep refuse,refuse,refuse,refuse", "connect client", "run", "run", "run", "run",
+                         "connect client", "run", "run"] + TEARDOWNS["reset"] + ["release"], "srv:%s:all-refused-then-reconnect" % label))
+    return S
+
+
+# --------------------------------------------------------------------------------------------------
+# xmpp_conn_send_queue_drop_element with stream management on (the <r/> linked to a dropped stanza)
+# --------------------------------------------------------------------------------------------------
+def fam_drop(rng, thorough):
+    S = []
+    sess = ["conn"] + cfg() + connect() + feed(script(tls=False, sm=True))
+    st = lambda i: "sendst " + H("<message to='a@b' id='d%d'><body>x</body></message>" % i)
+    blocked = "tx " + ",".join(["again"] * 24)
+    plans = [["o"], ["y"], ["o", "o"], ["y", "y"], ["o", "y"], ["y", "o", "y"], ["o", "o", "o", "o"], ["y", "y", "y", "y", "y"]]
+    if thorough:
+        plans += [[rng.choice("oy") for _ in range(rng.randrange(1, 7))] for _ in range(40)]
+    for plan in plans:
+        for nst in ((2, 4) if not thorough else (1, 2, 3, 5)):
+            for mid_run in (False, True):
+                for td in (("release", "close") if not thorough else ("release", "close", "reset", "disc-answered")):
+                    c = sess + [blocked] + [st(i) for i in range(nst)] + (["run"] if mid_run else []) + ["dumpq"]
+                    for d in plan:
+                        c += ["drop " + d] + (["run"] if mid_run and rng.random() < .5 else [])
+                    c += ["qlen", "tx all", "run", rx(sm_elem("a", h=1)), "run"] if td != "release" else ["qlen"]
+                    S.append(Sc(c + TEARDOWNS[td] + ["release"], "drop:%s:n%d:%s:%s" % ("".join(plan), nst, "run" if mid_run else "norun", td)))
+    # every stanza gets its own <r/> again once the previous one went with its stanza: send, drop, send, drop ...
+    for k in ((1, 3) if not thorough else (1, 2, 3, 6)):
+        for d in "oy":
+            c = sess + [blocked]
+            for i in range(k):
+                c += [st(i), "drop " + d]
+            S.append(Sc(c + ["dumpq", st(9), "qlen"] + TEARDOWNS["close"] + ["release"], "drop:send-drop-%s-x%d" % (d, k)))
+    # partially written head: the first element cannot be dropped, the others can
+    for plan in (["o"], ["y", "o"], ["o", "y", "o"]):
+        c = sess + ["tx k5," + ",".join(["again"] * 24)] + [st(i) for i in range(3)] + ["run", "dumpq"] + ["drop " + d for d in plan] + ["qlen"]
+        S.append(Sc(c + TEARDOWNS["close"] + ["release"], "drop:%s:partial-head" % "".join(plan)))
+    if not thorough and len(S) > 44:
+        S = S[:4] + S[4::2]
+    return S
+
+
+# --------------------------------------------------------------------------------------------------
 # running
 # --------------------------------------------------------------------------------------------------
 def crash_summary(rc, err):
@@ -632,6 +755,8 @@ def run_stream2(chk, exe, stats):
     fams.append(("clone", fam_clone(rng, thorough)))
     fams.append(("stages", fam_stages(rng, thorough)))
     fams.append(("misc", fam_misc(rng, thorough)))
+    fams.append(("srv", fam_srv(rng, thorough)))
+    fams.append(("drop", fam_drop(rng, thorough)))
     p1 = fam_restore_phase1(rng, thorough)
     fams.append(("restore-capture", p1))
     nrand = 30000 if thorough else 400
